@@ -101,6 +101,9 @@ int main(int argc, char** argv) {
             char* p = strchr(w, ','); var first = NULL;
             while (p && p[1]) { int64_t v = strtoll(p + 1, &p, 10); var e = new_raw(Int, $I(v)); if (!first) first = e; push(a, e); if (*p != ',') break; }
             if (w[1] == 'D' && first) push(a, first);
+          } else if (w[1] == 'Y') {                     /* a Type object (shown by its name) */
+            var ts[] = { Int, Float, String, Array, List, Table, Tree, Tuple, Ref, Box, Type, File, Range, Function };
+            a = Int; for (size_t q = 0; q < sizeof ts / sizeof ts[0]; q++) if (!strcmp(c_str(ts[q]), w + 3)) a = ts[q];
           } else if (w[1] == 'N') {                     /* an object whose type has no Show instance */
             a = alloc_raw(Plain); ((struct Plain*)a)->v = strtoll(w + 3, NULL, 10);
           } else if (w[1] == 'X') {                     /* an Array of such objects */
